@@ -295,7 +295,7 @@ Verdict HistEngine::exec_solvers(const Plan& plan, EventLog& log, Stats& st)
     const char* an = ALG[so.alg];
     if (s.op == "minall") {
       so.s->min_x(); so.all = true; so.subset.clear(); so.failed_reg = false;
-      log.line("%d o%d min_x(all)", n, o); st.add("ops.min_x"); st.nontrivial = true;
+      log.line("%d o%d min_x(all)", n, o); st.add("ops.min_x"); st.nontrivial = true; st.shape += fmt("%s:minall,", an);
       st.state("hist", fmt("%s/min_x-all/asked%d", an, std::min(so.asked, 2)));
     } else if (s.op == "minsub") {
       std::vector<int> sub = make_subset((uint64_t)s.arg(1), (int)s.arg(2), P.N);
@@ -303,7 +303,7 @@ Verdict HistEngine::exec_solvers(const Plan& plan, EventLog& log, Stats& st)
       Val mv = guarded([&](Val&) { so.s->min_x((int)sub.size(), sub.data()); });
       if (!mv.exc.empty()) st.add("fault.exception_survived");
       std::string t; for (int x : sub) t += std::to_string(x) + " ";
-      log.line("%d o%d min_x(subset %s) %s", n, o, t.c_str(), mv.exc.c_str()); st.add("ops.min_x"); st.nontrivial = true;
+      log.line("%d o%d min_x(subset %s) %s", n, o, t.c_str(), mv.exc.c_str()); st.add("ops.min_x"); st.nontrivial = true; st.shape += fmt("%s:minsub%zu,", an, sub.size());
       st.state("hist", fmt("%s/min_x-subset/asked%d", an, std::min(so.asked, 2)));
     } else if (s.op == "reset") {
       int which = (int)(s.arg(1) % 3);
@@ -318,7 +318,7 @@ Verdict HistEngine::exec_solvers(const Plan& plan, EventLog& log, Stats& st)
       //  is outside what the property promises - see DESIGN.md section 10.5)
       if (so.all) { if (which != 0 || s.arg(3) % 2 == 0) so.s->min_x(); } else { std::vector<int> sub = make_subset((uint64_t)s.arg(2), (int)s.arg(3), probs[target]->N); so.subset = sub; guarded([&](Val&) { so.s->min_x((int)sub.size(), sub.data()); }); }
       so.failed_reg = false;
-      log.line("%d o%d reset(problem %d)", n, o, target); st.add("ops.reset"); st.nontrivial = true;
+      log.line("%d o%d reset(problem %d)", n, o, target); st.add("ops.reset"); st.nontrivial = true; st.shape += fmt("%s:reset%d,", an, which);
       st.state("hist", fmt("%s/reset-%s/asked%d", an, which == 0 ? "same" : which == 1 ? "other" : "back", std::min(so.asked, 2)));
     } else {
       Query q = resolve(s.op, s.arg(1), s.arg(2), P);
@@ -333,6 +333,7 @@ Verdict HistEngine::exec_solvers(const Plan& plan, EventLog& log, Stats& st)
       if (!used.exc.empty()) { st.add("fault.exception_survived"); st.nontrivial = true; }
       st.state("hist", fmt("%s/%s/%s/asked%d/%s", an, q.kind.c_str(), P.defect ? "singular" : "regular", std::min(so.asked, 3), used.exc.empty() ? "value" : "throw"));
       log.line("%d o%d %s(%d,%d) = %s", n, o, q.kind.c_str(), q.i, q.j, used.str().c_str());
+      st.shape += fmt("%s:%s%c%c,", an, q.kind.c_str(), P.defect ? 's' : 'r', used.exc.empty() ? 'v' : 't');
       const std::string BADREG = fmt("matvec:%d", (int)GNU_gama::Exception::BadRegularization);
       if (ref.exc == BADREG) {
         // The regularisation subset does not resolve the defect: the quantity has no value, a fresh object refuses.
@@ -398,12 +399,12 @@ static Verdict exec_adj(const Plan& plan, EventLog& log, Stats& st)
   int n = 0;
   for (const Step& s : plan.steps) {
     Obj& O = objs[(size_t)(s.arg(0) % nobj)]; const Problem& P = *probs[O.input];
-    if (s.op == "alg") { O.alg = (int)(s.arg(1) % 4); O.adj->set_algorithm(ADJALG[O.alg]); log.line("%d a%lld set_algorithm(%s)", n, s.arg(0) % nobj, ALG[O.alg]); st.add("ops.set_algorithm"); st.nontrivial = true; st.state("hist", fmt("adj/set_algorithm/asked%d", std::min(O.asked, 2))); }
+    if (s.op == "alg") { O.alg = (int)(s.arg(1) % 4); O.adj->set_algorithm(ADJALG[O.alg]); log.line("%d a%lld set_algorithm(%s)", n, s.arg(0) % nobj, ALG[O.alg]); st.add("ops.set_algorithm"); st.nontrivial = true; st.shape += fmt("adj:alg%d,", O.alg); st.state("hist", fmt("adj/set_algorithm/asked%d", std::min(O.asked, 2))); }
     else if (s.op == "set") {
       int which = (int)(s.arg(1) % 2); if (which) O.input = 1 - O.input;
       if (!O.minx.empty()) O.minx = make_subset((uint64_t)s.arg(2) + 1, (int)s.arg(3), probs[O.input]->N);
       O.adj->set(adj_input(*probs[O.input], O.minx));
-      log.line("%d a%lld set(problem %d)", n, s.arg(0) % nobj, O.input); st.add("ops.set"); st.nontrivial = true; st.state("hist", fmt("adj/set-%s/asked%d", which ? "other" : "same", std::min(O.asked, 2)));
+      log.line("%d a%lld set(problem %d)", n, s.arg(0) % nobj, O.input); st.add("ops.set"); st.nontrivial = true; st.shape += fmt("adj:set%d,", which); st.state("hist", fmt("adj/set-%s/asked%d", which ? "other" : "same", std::min(O.asked, 2)));
     } else {
       static const char* KQ[] = {"unk", "res", "ssq", "def", "qxx", "qbb"};
       bool known = false; for (auto k : KQ) if (s.op == k) known = true;
@@ -422,6 +423,7 @@ static Verdict exec_adj(const Plan& plan, EventLog& log, Stats& st)
       if (!used.exc.empty()) st.add("fault.exception_survived");
       st.state("hist", fmt("adj/%s/%s/%s/asked%d/%s", ALG[O.alg], s.op.c_str(), P.defect ? "singular" : "regular", std::min(O.asked, 3), used.exc.empty() ? "value" : "throw"));
       log.line("%d a%lld %s(%d,%d) = %s", n, s.arg(0) % nobj, s.op.c_str(), q.i, q.j, used.str().c_str());
+      st.shape += fmt("adj-%s:%s%c%c,", ALG[O.alg], s.op.c_str(), P.defect ? 's' : 'r', used.exc.empty() ? 'v' : 't');
       if (ref.exc == BADREG) { st.add("undefined_quantity_skipped"); n++; continue; }
       if (!same_val(used, ref))
         return Verdict::fail(fmt("C04:%s:adj.%s:%s", used.exc != ref.exc ? "throw-differs" : "value-differs", s.op.c_str(), ALG[O.alg]), n,
